@@ -291,6 +291,18 @@ func (sc *SCtx) typeByName(name string) (types.Type, error) {
 		}
 		return types.NewSlice(t), nil
 	}
+	if strings.Contains(name, "/") {
+		// full import path: path/to/pkg.Type
+		i := strings.LastIndex(name, ".")
+		for _, pk := range sc.g.P.Pkgs {
+			if pk.PkgPath == name[:i] {
+				if tn, ok := pk.Types.Scope().Lookup(name[i+1:]).(*types.TypeName); ok {
+					return tn.Type(), nil
+				}
+			}
+		}
+		return nil, fmt.Errorf("unknown type %s", name)
+	}
 	if i := strings.Index(name, "."); i >= 0 {
 		if p := sc.importedPkg(name[:i]); p != nil {
 			if o := p.Scope().Lookup(name[i+1:]); o != nil {
@@ -425,6 +437,15 @@ func (sc *SCtx) binary(x *EBin) (Val, error) {
 	}
 	switch x.Op {
 	case "==", "!=":
+		// slice compared with nil: its backing array reference is nil
+		if l.K == VSlice && r.K == VScalar && r.Ty == types.Typ[types.UntypedNil] {
+			l = l.F[0]
+			l.Ty = nil
+		}
+		if r.K == VSlice && l.K == VScalar && l.Ty == types.Typ[types.UntypedNil] {
+			r = r.F[0]
+			r.Ty = nil
+		}
 		eq := valEq(l, r)
 		if eq == nil {
 			return Val{}, fmt.Errorf("cannot compare %s and %s", ExprString(x.L), ExprString(x.R))
@@ -579,9 +600,16 @@ func (sc *SCtx) fieldAddr(base Val, name string) (*Addr, types.Type, error) {
 func (sc *SCtx) addr(e Expr) (*Addr, types.Type, error) {
 	switch x := e.(type) {
 	case *ESel:
-		base, err := sc.eval(x.X)
-		if err != nil {
-			return nil, nil, err
+		var base Val
+		if a0, _, err0 := sc.addr(x.X); err0 == nil {
+			// the base is itself a location (nested struct field): stay symbolic
+			base = Val{K: VAddr, A: a0}
+		} else {
+			var err error
+			base, err = sc.eval(x.X)
+			if err != nil {
+				return nil, nil, err
+			}
 		}
 		a, ty, err := sc.fieldAddr(base, x.Name)
 		if err != nil {
@@ -800,6 +828,28 @@ func (sc *SCtx) call(x *ECall) (Val, error) {
 				return Val{}, fmt.Errorf("as: not an interface value")
 			}
 			return scalar(v.T, ty), nil
+		case "fresh":
+			// fresh(x): the slice's backing array / the object was allocated during the call
+			if len(x.Args) != 1 {
+				return Val{}, fmt.Errorf("fresh takes one argument")
+			}
+			v, err := sc.eval(x.Args[0])
+			if err != nil {
+				return Val{}, err
+			}
+			if sc.old == nil {
+				return Val{}, fmt.Errorf("fresh() needs a pre-state")
+			}
+			var ref *Term
+			switch {
+			case v.K == VSlice:
+				ref = v.F[0].T
+			case v.K == VScalar && v.T != nil && v.T.S == SInt:
+				ref = v.T
+			default:
+				return Val{}, fmt.Errorf("fresh: not a reference")
+			}
+			return scalar(Gt(ref, sc.old.Clk), types.Typ[types.Bool]), nil
 		case "separate":
 			// separate(a, b): the two slices have different backing arrays
 			if len(x.Args) != 2 {
